@@ -266,6 +266,7 @@ func mustPassToExit(ev ssa.Instruction, pred func(ssa.Instruction) bool) bool {
 }
 
 func c23(r *core.Run) {
+	c23ZeroMeansUnset(r)
 	w := r.W
 	fn := w.Func(kadPkg, "(*Kad).ClosestPeer")
 	cps := w.Func(kadPkg, "(*Kad).ClosestPeers")
